@@ -54,7 +54,11 @@ func recC13(c *ctx) {
 		rnd := r.Bytes(32)
 		rng, _ := rb.Finalize(bytes.NewReader(rnd))
 		emit(vt.Ev{"op": "finalize", "t": 2, "rnd": vt.B(rnd)})
-		out2 := make([]byte, 8)
+		if L%3 == 0 { // a zero-length read is an operation of its own (framing is still absorbed)
+			_, _ = rng.Read([]byte{})
+			emit(vt.Ev{"op": "read", "t": 2, "out": []int{}})
+		}
+		out2 := bytes.Repeat([]byte{0xc3}, []int{8, 8, 8, 230}[L%4])
 		_, _ = rng.Read(out2)
 		emit(vt.Ev{"op": "read", "t": 2, "out": vt.B(out2)})
 	}
@@ -101,7 +105,7 @@ func recC13(c *ctx) {
 					emit(vt.Ev{"op": "append", "t": id, "label": vt.B(label), "data": vt.B(msg)})
 				case 2, 3:
 					label := r.Bytes(c13len(r) % 32)
-					out := make([]byte, []int{1, 16, 32, 64, 166, 167, 200, 340}[r.Intn(8)])
+					out := make([]byte, []int{0, 1, 16, 32, 64, 166, 167, 200, 201, 340, 500}[r.Intn(11)])
 					for i := range out {
 						out[i] = 0xa5 // stale contents must not matter
 					}
@@ -134,7 +138,10 @@ func recC13(c *ctx) {
 				}
 			case "rng":
 				rng := objs[id-1].(rdr)
-				out := make([]byte, []int{1, 32, 64, 170}[r.Intn(4)])
+				out := make([]byte, []int{0, 1, 32, 64, 170, 260}[r.Intn(6)])
+				for i := range out {
+					out[i] = 0x5a // stale contents must not matter
+				}
 				if _, err := rng.Read(out); err != nil {
 					panic(err)
 				}
